@@ -29,6 +29,10 @@ use std::sync::{Arc, Mutex};
 use vcore::*;
 
 fn main() {
+    if let Ok(spec) = std::env::var("C14_WORKER") {
+        huge_worker(&spec);
+        return;
+    }
     main_for("C14", body)
 }
 
@@ -51,9 +55,12 @@ fn body(run: &Run, replay: Option<&Value>) {
     // (1) IntSet
     let q = run.tier == Tier::Quick;
     // (level-synchronous depth, stateright depth) per domain
-    let small_members = domain::<Small>(run, if q { 4 } else { 5 }, if q { 2 } else { 3 }, true);
+    let small_depth = std::env::var("C14_SMALL_DEPTH").ok().and_then(|s| s.parse().ok()).unwrap_or(if q { 5 } else { 6 });
+    let small_members = domain::<Small>(run, small_depth, if q { 2 } else { 3 }, true);
     domain::<Even>(run, if q { 3 } else { 4 }, 2, false);
-    domain::<u8>(run, if q { 4 } else { 5 }, if q { 2 } else { 3 }, false);
+    // discontinuous domain whose holes straddle page boundaries
+    domain::<Holes>(run, if q { 2 } else { 4 }, 2, false);
+    domain::<u8>(run, if q { 5 } else { 6 }, if q { 2 } else { 3 }, false);
     domain::<u16>(run, if q { 2 } else { 3 }, 2, false);
     domain::<font_types::GlyphId16>(run, if q { 2 } else { 3 }, 2, false);
     domain::<font_types::NameId>(run, if q { 2 } else { 3 }, 2, false);
@@ -69,6 +76,8 @@ fn body(run: &Run, replay: Option<&Value>) {
     eprintln!("[c14] round trips done at {:.1}s", run.elapsed());
     codec_decoder(run);
     eprintln!("[c14] decoder done at {:.1}s", run.elapsed());
+    codec_huge(run);
+    eprintln!("[c14] huge decoder cases done at {:.1}s", run.elapsed());
 }
 
 // ---------------------------------------------------------------------------
@@ -103,7 +112,7 @@ fn domain<T: Dom>(run: &Run, depth: usize, sr_depth: usize, keep: bool) -> Vec<V
     let sys = Arc::new(Sys::<T>::new(false));
     run.bound(
         &format!("intset.{}", T::NAME),
-        json!({"depth": depth, "stateright_depth_1_thread": sr_depth, "stateright_depth_16_threads": (sr_depth + 1).min(depth), "actions": sys.actions.len(), "V": sys.v, "contains_probes": sys.probe.len(),
+        json!({"depth": depth, "stateright_depth_1_thread": sr_depth, "stateright_depth_16_threads": if run.tier == Tier::Quick { sr_depth } else { (sr_depth + 1).min(depth) }, "actions": sys.actions.len(), "V": sys.v, "contains_probes": sys.probe.len(),
                "operands": sys.operands.iter().map(|o| format!("{} {:?}", o.desc, o.model.r)).collect::<Vec<_>>(),
                "lists": sys.lists, "iterator_prefix_followed": if sys.k == usize::MAX { json!("whole") } else { json!(sys.k) }}),
     );
@@ -144,7 +153,7 @@ fn domain<T: Dom>(run: &Run, depth: usize, sr_depth: usize, keep: bool) -> Vec<V
     // target d+1 so that generated = cumulative through level d.
     for threads in [1usize, 16] {
         // the 16-thread run goes one level deeper than the sequential one (it is cheap)
-        let sr_depth = if threads == 1 { sr_depth } else { (sr_depth + 1).min(depth) };
+        let sr_depth = if threads == 1 || run.tier == Tier::Quick { sr_depth } else { (sr_depth + 1).min(depth) };
         let first_failure = Arc::new(Mutex::new(None));
         let transitions = Arc::new(AtomicU64::new(0));
         let model = SrModel { sys: sys.clone(), first_failure: first_failure.clone(), transitions: transitions.clone(), full_seen: Default::default() };
@@ -394,7 +403,20 @@ fn codec_round_trips(run: &Run, small_members: &[Vec<(u64, u64)>]) {
     run.sample(json!({"codec_round_trip_example": {"members": [[2,2],[33,33],[323,323]], "bf8_bytes": hex(&codec::encode_bf(&codec::set_from_ranges(&[(2,2),(33,33),(323,323)]), 8))}}));
 }
 
-const BIAS_MAX: [(u32, u32); 6] = [(0, u32::MAX), (0, 0), (1, 10), (u32::MAX, u32::MAX), (5, 4), (3, 1000)];
+const BIAS_MAX: [(u32, u32); 11] = [
+    (0, u32::MAX),
+    (0, 0),
+    (1, 10),
+    (u32::MAX, u32::MAX),
+    (5, 4),
+    (3, 1000),
+    // top of u32: bias + value overflows, max just below / at the top, bias above max
+    (u32::MAX - 1, u32::MAX),
+    (u32::MAX - 10, u32::MAX - 2),
+    (0x8000_0000, u32::MAX),
+    (1, u32::MAX - 1),
+    (u32::MAX - 3, 2),
+];
 
 fn codec_decoder(run: &Run) {
     // all byte strings of length 0..=L over all 256 byte values, plus (thorough) length L+1 with a
@@ -514,6 +536,123 @@ fn codec_decoder(run: &Run) {
     }
 }
 
+
+// ---------------------------------------------------------------------------
+// decoder: the cases the sweep skips because the result is huge ("decoding arbitrary bytes never
+// panics": does it return, and what does it cost?). Each case runs in a worker subprocess with a CPU
+// limit; time and peak memory are recorded. A worker that panics, aborts or is killed by a signal
+// other than the CPU limit is a violation; slowness alone is recorded as an observation.
+// ---------------------------------------------------------------------------
+
+const HUGE_CPU_LIMIT_S: u64 = 120;
+
+/// (bytes, description)
+fn huge_inputs(all: bool) -> Vec<(Vec<u8>, &'static str)> {
+    let mut v: Vec<(Vec<u8>, &'static str)> = vec![
+        // truncated streams: a filled node of 2^30 values is inserted, then the bits run out => Err
+        (vec![0x7c, 0b0011_0011], "BF2 H31: root 11, node 00 (filled 2^30), node 11, one more node, then truncated"),
+        (vec![0x41, 0x03], "BF4 H16: root 0011, node 0000 (filled 2^30), next node missing"),
+        (vec![0x2e, 0x03, 0x00], "BF8 H11: root 00000011, node 0 (filled 2^30), next node missing"),
+        // complete streams
+        (vec![0x7c, 0x00], "BF2 H31: root 00 => [0, 2^31)"),
+    ];
+    if all {
+        v.push((vec![0x41, 0x00], "BF4 H16: root 0000 => all of u32"));
+        v.push((vec![0x2e, 0x00], "BF8 H11: root 0 => [0, 2^33) clipped to u32"));
+        v.push((vec![0x1f, 0, 0, 0, 0], "BF32 H7: root 0 => [0, 2^35) clipped to u32 (5 bytes)"));
+        v.push((vec![0x7c, 0b1100_0011, 0x00], "BF2 H31: two filled quarter nodes"));
+    }
+    v
+}
+
+fn huge_worker(spec: &str) {
+    let data = unhex(spec);
+    install_panic_hook();
+    let lim = libc::rlimit { rlim_cur: HUGE_CPU_LIMIT_S, rlim_max: HUGE_CPU_LIMIT_S + 1 };
+    unsafe { libc::setrlimit(libc::RLIMIT_CPU, &lim) };
+    let t0 = std::time::Instant::now();
+    let r = guard(|| {
+        read_fonts::collections::IntSet::<u32>::from_sparse_bit_set_bounded(&data, 0, u32::MAX).map(|(s, rest)| {
+            let ranges: Vec<(u64, u64)> = s.iter_ranges().take(8).map(|r| (*r.start() as u64, *r.end() as u64)).collect();
+            (ranges, s.len(), data.len() - rest.len())
+        })
+    });
+    let secs = t0.elapsed().as_secs_f64();
+    let (cpu, rss) = unsafe {
+        let mut ru: libc::rusage = std::mem::zeroed();
+        libc::getrusage(libc::RUSAGE_SELF, &mut ru);
+        (ru.ru_utime.tv_sec as f64 + ru.ru_utime.tv_usec as f64 / 1e6 + ru.ru_stime.tv_sec as f64 + ru.ru_stime.tv_usec as f64 / 1e6, ru.ru_maxrss)
+    };
+    // peak resident set of this address space (ru_maxrss can carry over the parent's value across exec)
+    let rss = std::fs::read_to_string("/proc/self/status")
+        .ok()
+        .and_then(|s| s.lines().find(|l| l.starts_with("VmHWM:")).and_then(|l| l.split_whitespace().nth(1).and_then(|v| v.parse::<i64>().ok())))
+        .unwrap_or(rss);
+    match r {
+        Ok(Ok((ranges, len, used))) => println!("RESULT {}", json!({"ok": true, "ranges": ranges, "len": len, "consumed": used, "wall_s": secs, "cpu_s": cpu, "max_rss_kb": rss})),
+        Ok(Err(_)) => println!("RESULT {}", json!({"ok": false, "wall_s": secs, "cpu_s": cpu, "max_rss_kb": rss})),
+        Err(p) => println!("PANIC {}", json!({"kind": p.kind(), "site": p.site(), "message": p.message})),
+    }
+}
+
+fn codec_huge(run: &Run) {
+    use std::os::unix::process::ExitStatusExt;
+    let inputs = huge_inputs(run.tier == Tier::Thorough);
+    run.bound("codec.decoder.huge_cases", json!({"inputs": inputs.iter().map(|(b, d)| format!("{} — {}", hex(b), d)).collect::<Vec<_>>(), "cpu_limit_s": HUGE_CPU_LIMIT_S, "bias": 0, "max": u32::MAX}));
+    let results: Mutex<Vec<Value>> = Mutex::new(vec![]);
+    inputs.par_iter().for_each(|(data, desc)| {
+        run.eval();
+        let case = json!({"kind":"codec_huge","bytes":hex(data)});
+        let out = std::process::Command::new(std::env::current_exe().unwrap()).env("C14_WORKER", hex(data)).stderr(std::process::Stdio::null()).output();
+        let Ok(out) = out else {
+            run.machinery_error("cannot spawn decoder worker");
+            return;
+        };
+        let text = String::from_utf8_lossy(&out.stdout).to_string();
+        let mut rec = json!({"bytes": hex(data), "what": desc});
+        if let Some(line) = text.lines().find_map(|l| l.strip_prefix("RESULT ")) {
+            let r: Value = serde_json::from_str(line).unwrap_or(Value::Null);
+            // compare with the specification's result (ranges only: nothing is materialised)
+            let spec = codec::spec_decode(data);
+            let exp = spec.as_ref().ok().map(|sd| (codec::bias_and_max(&sd.ranges, 0, u32::MAX), sd.consumed));
+            let got_ok = r["ok"].as_bool().unwrap_or(false);
+            match (&exp, got_ok) {
+                (Some((er, eused)), true) => {
+                    let gr: Vec<(u64, u64)> = r["ranges"].as_array().map(|a| a.iter().map(|p| (p[0].as_u64().unwrap_or(0), p[1].as_u64().unwrap_or(0))).collect()).unwrap_or_default();
+                    let pop: u64 = er.iter().map(|(a, b)| b - a + 1).sum();
+                    if &gr != er || r["len"].as_u64() != Some(pop) || r["consumed"].as_u64() != Some(*eused as u64) {
+                        run.violation("sparse bit set: from_sparse_bit_set_bounded members differ from the specification", &format!("bytes {} ({desc}): got {r} expected {:?}", hex(data), exp), case.clone());
+                    }
+                }
+                (None, false) => {}
+                (Some(_), false) => run.violation("sparse bit set: from_sparse_bit_set_bounded rejects input the specification decodes", &format!("bytes {}", hex(data)), case.clone()),
+                (None, true) => run.violation("sparse bit set: from_sparse_bit_set_bounded accepts input the specification rejects", &format!("bytes {}", hex(data)), case.clone()),
+            }
+            rec["result"] = r;
+            run.observe(digest_of(&(hex(data), got_ok)), got_ok);
+        } else if let Some(line) = text.lines().find_map(|l| l.strip_prefix("PANIC ")) {
+            let p: Value = serde_json::from_str(line).unwrap_or(Value::Null);
+            run.violation(&format!("from_sparse_bit_set_bounded panic {} in {}", p["kind"].as_str().unwrap_or("?"), p["site"].as_str().unwrap_or("?")), &format!("bytes {} ({desc}): {p}", hex(data)), case.clone());
+            rec["result"] = json!("panic");
+        } else {
+            let sig = out.status.signal();
+            if sig == Some(libc::SIGXCPU) {
+                // observation, not a verdict: the statement demands "never panics"
+                rec["result"] = json!(format!("did not return within {HUGE_CPU_LIMIT_S} s of CPU time"));
+                run.count("codec.decoder.huge_cases_over_cpu_limit", 1);
+            } else {
+                run.violation("from_sparse_bit_set_bounded aborts the process on a tiny input", &format!("bytes {} ({desc}): worker ended with {:?} and no result (allocation failure / abort)", hex(data), out.status), case.clone());
+                rec["result"] = json!(format!("worker died: {:?}", out.status));
+            }
+        }
+        results.lock().unwrap().push(rec);
+    });
+    let mut r = results.into_inner().unwrap();
+    r.sort_by_key(|v| v["bytes"].as_str().unwrap_or("").to_string());
+    run.count("codec.decoder.huge_cases", r.len() as u64);
+    run.extra("codec.decoder.huge_case_costs", json!(r));
+}
+
 // ---------------------------------------------------------------------------
 // replay
 // ---------------------------------------------------------------------------
@@ -523,6 +662,7 @@ fn replay_case(run: &Run, case: &Value) {
         "intset" => match case["domain"].as_str().unwrap_or("") {
             "Small1536" => replay_intset::<Small>(run, case),
             "Even3072" => replay_intset::<Even>(run, case),
+            "Holes2048" => replay_intset::<Holes>(run, case),
             "u8" => replay_intset::<u8>(run, case),
             "u16" => replay_intset::<u16>(run, case),
             "u32" => replay_intset::<u32>(run, case),
@@ -548,6 +688,7 @@ fn replay_case(run: &Run, case: &Value) {
                 Err((label, details)) => run.violation(&format!("sparse bit set: {label}"), &details, case.clone()),
             }
         }
+        "codec_huge" => codec_huge(run),
         k => println!("replay: unknown case kind {k}"),
     }
 }
